@@ -430,7 +430,7 @@ async def scenario(ctx, case, labels, out):
         unsat_expected = False
         if rd is not None and rd.mb is not None:
             rem, _ = read_regime()
-            unsat_expected = M.expect(rd.spec, rem, True, rd.mb)[0] == "unsat"
+            unsat_expected = M.may_be_unsat(M.expect(rd.spec, rem, True, rd.mb))
         if not (err_ok(e0) or (unsat_expected and isinstance(e0, UnsatisfiableReadError))):
             ctx.fail(P + ".stream_error_not_the_cause", {"error": repr(e0), "cause": case["cause"]})
         pend, canc = [], []
@@ -568,7 +568,7 @@ async def scenario(ctx, case, labels, out):
                         if rd.spec[0] == "into":
                             S["taint"] = "into"  # bytes received into the caller's buffer stay buffered (model)
                             labels.add("failed_read_into")
-                        elif exp == "unsat" and S["taint"] is None:
+                        elif exp in ("unsat", "pending_or_unsat", "fail_or_unsat") and S["taint"] is None:
                             S["taint"] = "unsat"
         # write bookkeeping while open
         if not s.closed():
